@@ -44,6 +44,9 @@ type Case struct {
 	HasWatch   bool     `json:"has_watch_event,omitempty"`
 	// Kind: how the binding spells the kind ("" = ConfigMap); lower-case and plural spellings are accepted
 	Kind string `json:"kind,omitempty"`
+	// UnlockAfter: the events of the first n history steps arrive while the binding is still locked (its
+	// Synchronization is running); they are buffered and handed over at the unlock: the same triggers, in order
+	UnlockAfter int `json:"unlock_after,omitempty"`
 }
 
 var filters = []string{
@@ -127,6 +130,9 @@ func gen(t *rapid.T) Case {
 		}
 	}
 	c.Kind = rapid.SampledFrom([]string{"", "", "", "configmap", "configmaps"}).Draw(t, "kind")
+	if rapid.IntRange(0, 2).Draw(t, "locked") == 0 {
+		c.UnlockAfter = rapid.IntRange(1, 8).Draw(t, "unlockAfter")
+	}
 	c.Filter = rapid.SampledFrom(filters).Draw(t, "filter")
 	c.KeepFull = rapid.Bool().Draw(t, "keepFull")
 	ns := rapid.IntRange(2, 5).Draw(t, "nstates")
@@ -394,7 +400,9 @@ func runCase(c Case) (ev.Info, error) {
 	if len(mon.ResourceInformers) != 1 {
 		return info, fmt.Errorf("harness: expected one informer")
 	}
-	mon.EnableKubeEventCb()
+	if c.UnlockAfter == 0 {
+		mon.EnableKubeEventCb()
+	}
 	inf := mon.ResourceInformers[0]
 
 	// drive the history; keep the latest state per live object
@@ -439,7 +447,12 @@ func runCase(c Case) (ev.Info, error) {
 		}
 		return nil
 	}
+	unlocked := c.UnlockAfter == 0
 	for i, s := range c.History {
+		if !unlocked && i >= c.UnlockAfter {
+			mon.EnableKubeEventCb()
+			unlocked = true
+		}
 		_, isLive := live[s.Obj]
 		op, st := s.Op, s.State
 		switch op {
@@ -475,9 +488,19 @@ func runCase(c Case) (ev.Info, error) {
 			}
 			delete(live, s.Obj)
 		}
-		if err := checkSnapshot(i); err != nil && failure == nil {
-			failure = err
+		// (while the binding is locked no snapshot is read: a read would drop the buffered events - the open finding
+		// C01-second-reader-drops-buffer, judged under C01)
+		if unlocked {
+			if err := checkSnapshot(i); err != nil && failure == nil {
+				failure = err
+			}
 		}
+	}
+	if !unlocked {
+		mon.EnableKubeEventCb()
+	}
+	if c.UnlockAfter > 0 {
+		info.Labels = append(info.Labels, "events-buffered-before-unlock")
 	}
 	want, nt, anySuppressed, err := expectedEvents(c, listed, false)
 	if err != nil {
@@ -512,7 +535,7 @@ func runCase(c Case) (ev.Info, error) {
 	return info, failure
 }
 
-const rule = "one informer of a real monitor on a fake cluster (kind spelled ConfigMap, configmap or configmaps), unlocked, driven through OnAdd/OnUpdate/OnDelete with generated per-object histories over a pool of 2-5 generated object states (repeats, changes outside the projection, delete (also delivered as a DeletedFinalStateUnknown tombstone) and re-add, re-delivery of Added for listed objects - also flagged as coming from the informer's own initial list, possibly in a newer state -, resync), executeHookOnEvent all subsets plus default (in a third of the cases declared in a hook configuration loaded by the real loader, optionally next to the deprecated watchEvent), jqFilter from a pool of object/array/scalar/null-valued single-output expressions, two multi-output expressions (objects with distinct keys) or none; oracle: trigger <=> type listed and (Deleted or independently computed projection differs from the last known), and every snapshot shows the latest state. Non-trivial: one object had both a suppressed and a delivered Modified. Distinct = distinct cases."
+const rule = "one informer of a real monitor on a fake cluster (kind spelled ConfigMap, configmap or configmaps), unlocked from the start or - in a third of the cases - only after the first 1-8 steps (their events are buffered and handed over at the unlock), driven through OnAdd/OnUpdate/OnDelete with generated per-object histories over a pool of 2-5 generated object states (repeats, changes outside the projection, delete (also delivered as a DeletedFinalStateUnknown tombstone) and re-add, re-delivery of Added for listed objects - also flagged as coming from the informer's own initial list, possibly in a newer state -, resync), executeHookOnEvent all subsets plus default (in a third of the cases declared in a hook configuration loaded by the real loader, optionally next to the deprecated watchEvent), jqFilter from a pool of object/array/scalar/null-valued single-output expressions, two multi-output expressions (objects with distinct keys) or none; oracle: trigger <=> type listed and (Deleted or independently computed projection differs from the last known), and every snapshot shows the latest state. Non-trivial: one object had both a suppressed and a delivered Modified. Distinct = distinct cases."
 
 func TestInformer(t *testing.T) {
 	ev.Main(t, ev.Spec[Case]{Property: "C08", Part: "informer", Rule: rule, Gen: gen, Run: runCase})
